@@ -197,13 +197,14 @@ func kindOf(r callResult) string {
 	return errKind(r.err)
 }
 
-func muxConfig(w, b, bufs int, hb time.Duration) *multiplexing.Configuration {
+// hbReceive is the MaximumHeartbeatReceiveInterval used by newPair (0: heartbeats not required).
+func muxConfig(w, b, bufs int, hb, hbReceive time.Duration) *multiplexing.Configuration {
 	c := multiplexing.DefaultConfiguration()
 	c.StreamReceiveWindow = w
 	c.AcceptBacklog = b
 	c.WriteBufferCount = bufs
 	c.HeartbeatTransmitInterval = hb
-	c.MaximumHeartbeatReceiveInterval = 0
+	c.MaximumHeartbeatReceiveInterval = hbReceive
 	return c
 }
 
@@ -214,9 +215,13 @@ type pair struct {
 }
 
 func newPair(tap func(int, *wireMsg), gated bool, capacity, w, b, bufs int, hb time.Duration) *pair {
+	return newPairHB(tap, gated, capacity, w, b, bufs, hb, 0)
+}
+
+func newPairHB(tap func(int, *wireMsg), gated bool, capacity, w, b, bufs int, hb, hbReceive time.Duration) *pair {
 	p := &pair{l: newLink(tap, gated, capacity)}
-	p.mux[0] = multiplexing.Multiplex(p.l.end[0], false, muxConfig(w, b, bufs, hb))
-	p.mux[1] = multiplexing.Multiplex(p.l.end[1], true, muxConfig(w, b, bufs, hb))
+	p.mux[0] = multiplexing.Multiplex(p.l.end[0], false, muxConfig(w, b, bufs, hb, hbReceive))
+	p.mux[1] = multiplexing.Multiplex(p.l.end[1], true, muxConfig(w, b, bufs, hb, hbReceive))
 	return p
 }
 
